@@ -96,6 +96,10 @@ def gen_mo_trace(rng):
         if rng.random() < 0.3:
             ops.append({"who": "obs", "op": "read", "attr": rng.choice(MO_READS)})
             continue
+        if kind == "restricted" and rng.random() < 0.06:
+            # orbital counts that contradict the kind must be rejected at assignment as well
+            ops.append({"who": "mut", "op": "set", "attr": rng.choice(["norba", "norbb"]), "value": na + rng.choice([-1, 0, 1, 2])})
+            continue
         attr = rng.choice(["occs", "occsa", "occsa", "occsb", "occsb", "occs_aminusb", "coeffs", "energies", "irreps"])
         half = na if attr == "occsa" else nb if attr == "occsb" else norb
         if kind == "restricted":
@@ -115,7 +119,10 @@ def gen_mo_trace(rng):
             val = [round(-2.0 + 0.25 * i, 2) for i in range(n)]
         else:
             val = ["b2"] * n
-        ops.append({"who": "mut", "op": "set", "attr": attr, "value": val})
+        op = {"who": "mut", "op": "set", "attr": attr, "value": val}
+        if attr in ("occsa", "occsb") and val is not None and rng.random() < 0.3:
+            op["scribble"] = True  # the caller reuses its buffer after the assignment
+        ops.append(op)
     return {"target": "mo", "ops": ops}
 
 
@@ -379,6 +386,19 @@ def run_ops(trace, with_observer=True):
                 out.append(_v("J6_generalized_spin_access", f"{attr} assignment on generalized orbitals raised {type(raised).__name__}", trace, k, attr))
             continue
         mut.append("ok")
+        if target == "mo" and attr in ("norba", "norbb"):
+            if obj.kind == "restricted" and obj.norba != obj.norbb:
+                out.append(_v("J7_kind_contradiction", f"{attr}={op['value']} accepted: restricted orbitals with norba {obj.norba} != norbb {obj.norbb}", trace, k, attr))
+            continue
+        if target == "mo" and op.get("scribble") and isinstance(val, np.ndarray) and val.size and obj.kind != "generalized":
+            kept = np.array(val)
+            val[...] = 7.75  # the caller overwrites its own buffer
+            c = copy.deepcopy(obj)
+            got = getattr(c, attr)
+            if len(kept) == (c.norba if (attr == "occsa" or c.kind == "restricted") else c.norbb) and \
+                    (got is None or got.shape != kept.shape or not np.allclose(got, kept)):
+                out.append(_v("J5_spin_occ_aliases_caller_buffer", f"{attr}={list(kept)} assigned, then the caller reused its buffer: {attr} now reads {None if got is None else list(got)}", trace, k, attr))
+            val = kept
         if target == "mo":
             if obj.kind == "generalized" and attr in ("occsa", "occsb"):
                 out.append(_v("J6_generalized_spin_access", f"{attr} assignment accepted on generalized orbitals", trace, k, attr))
